@@ -2,6 +2,17 @@ use parol::analysis::k_decision::{FirstCache, FollowCache};
 use parol::obtain_grammar_config_from_string;
 
 pub fn run(args: &[String]) -> i32 {
+    if args[0] == "model" {
+        let par = std::fs::read_to_string(&args[1]).unwrap();
+        let g = crate::bind::pipeline(&par, 3, &crate::bind::GenCfg::default()).map_err(|e| e.msg).unwrap();
+        let m = match &g.analysis {
+            crate::bind::Analysis::Ll(d) => parol::generate_parser_export_model(&g.gc, d).unwrap(),
+            crate::bind::Analysis::Lr(t, _) => parol::generate_lalr1_parser_export_model(&g.gc, t).unwrap(),
+        };
+        crate::outln!("{}", serde_json::to_string_pretty(&m).unwrap());
+        if args.len() > 2 { crate::outln!("{}", g.parser_src); }
+        return 0;
+    }
     if args[0] == "tokens" {
         let par = std::fs::read_to_string(&args[1]).unwrap();
         let text = args[2].replace("\\n", "\n").replace("\\r", "\r");
